@@ -47,7 +47,10 @@ def op_configs(quick):
            ("laplace", "hypersingular", ("P1",), ("P1",), None),
            ("helmholtz", "single_layer", ("P1", "DP0"), ("P1", "DP0"), 1.1 + 0.3j),
            ("maxwell", "electric_field", ("RWG",), ("SNC",), 0.8),
-           ("sparse", "identity", scal0, scal0, None)]
+           ("sparse", "identity", scal0, scal0, None),
+           # each hypersingular assembler is a hand-written twin of the others: all three are in the quick tier
+           ("helmholtz", "hypersingular", ("P1",), ("P1",), 1.3 + 0.2j),
+           ("modified_helmholtz", "hypersingular", ("P1",), ("P1",), 0.6)]
     if not quick:
         cfg += [("laplace", "adjoint_double_layer", scal0, scal0, None),
                 ("helmholtz", "double_layer", scal0, scal0, 0.9),
